@@ -388,6 +388,33 @@ func checkC16(R *Run) {
 			R.und("access-tables", "AccessBitmap.MarshalYAML", P.pos(mm.Pos()), "does not return an accessFlags literal (accepted idiom)")
 		} else {
 			recvName := mm.Recv.List[0].Names[0].Name
+			// a local bound once to the method value `bits.IsSet` stands for it
+			isSetAlias := map[types.Object]bool{}
+			reassigned := map[types.Object]bool{}
+			ast.Inspect(mm.Body, func(n ast.Node) bool {
+				as, ok := n.(*ast.AssignStmt)
+				if !ok {
+					return true
+				}
+				for i, l := range as.Lhs {
+					id, ok := l.(*ast.Ident)
+					if !ok {
+						continue
+					}
+					if as.Tok == token.DEFINE && i < len(as.Rhs) && len(as.Lhs) == len(as.Rhs) {
+						if sel, ok := as.Rhs[i].(*ast.SelectorExpr); ok && sel.Sel.Name == "IsSet" {
+							if x, ok := sel.X.(*ast.Ident); ok && x.Name == recvName {
+								if o := hp.TypesInfo.Defs[id]; o != nil {
+									isSetAlias[o] = true
+								}
+							}
+						}
+					} else if o := hp.TypesInfo.Uses[id]; o != nil {
+						reassigned[o] = true
+					}
+				}
+				return true
+			})
 			seenField := map[string]bool{}
 			for _, e := range lit.Elts {
 				kv, ok := e.(*ast.KeyValueExpr)
@@ -399,8 +426,19 @@ func checkC16(R *Run) {
 				call, ok := kv.Value.(*ast.CallExpr)
 				good := false
 				if ok && len(call.Args) == 1 {
+					viaRecv := false
 					if sel, ok := call.Fun.(*ast.SelectorExpr); ok && sel.Sel.Name == "IsSet" {
 						if id, ok := sel.X.(*ast.Ident); ok && id.Name == recvName {
+							viaRecv = true
+						}
+					}
+					if id, ok := call.Fun.(*ast.Ident); ok {
+						if o := hp.TypesInfo.Uses[id]; o != nil && isSetAlias[o] && !reassigned[o] {
+							viaRecv = true
+						}
+					}
+					if viaRecv {
+						{
 							if n, _, ok := constIntOf(hp, call.Args[0]); ok {
 								good = true
 								if seenField[fieldName] {
@@ -691,7 +729,8 @@ func parseFlagIf(p *packages.Package, st ast.Stmt, recv string) (key string, val
 	if !isSel || sel.Sel.Name != "Set" {
 		return
 	}
-	if id, isID := sel.X.(*ast.Ident); !isID || id.Name != recv {
+	// the receiver itself, or (in the normalised view) the name an expanded helper gave it
+	if id, isID := sel.X.(*ast.Ident); !isID || (id.Name != recv && !(strings.HasPrefix(id.Name, "__p") && strings.HasSuffix(types.TypeString(p.TypesInfo.TypeOf(id), nil), "hotline.AccessBitmap"))) {
 		return
 	}
 	n, name, cok := constIntOf(p, call.Args[0])
